@@ -69,3 +69,52 @@ Proof.
 Qed.
 
 Print Assumptions flush_durable_over_any_buffer.
+
+(** ** the same with FAILED flushes in between (C16 at byte level over the concrete buffer).
+    After creation and any history the buffer of each file may be flushed any number of times
+    under file-size limits that come and go ([Cache_fault.flush_f]: refused writes, partial
+    writes); whatever these attempts reported, the buffer still represents the file, and a flush
+    without limit then puts exactly [render] of the current state on the disk. *)
+From Aby Require Import Cache_fault.
+
+Definition flush_attempts (lims : list (option N)) (c : cache) : cache :=
+  fold_left (fun c lim => match flush_f lim c with FOk c' | FErr c' => c' | FStop _ => c end) lims c.
+
+Lemma flush_attempts_keep lims : forall c f,
+  cache_invf c -> R c f -> cache_invf (flush_attempts lims c) /\ R (flush_attempts lims c) f /\
+  k_cs (flush_attempts lims c) = k_cs c.
+Proof.
+  induction lims as [|lim rest IH]; intros c f I HR; [cbn; auto|].
+  cbn [flush_attempts fold_left].
+  destruct (flush_f_view_intact lim c f I HR) as (c' & ok & E & R' & I' & Hcs & _).
+  rewrite E. assert (Hn : match fpack c' ok with FOk c'0 | FErr c'0 => c'0 | FStop _ => c end = c') by (destruct ok; reflexivity).
+  rewrite Hn. fold (flush_attempts rest c'). destruct (IH c' f I' R') as (A & B & C). split; [exact A|]. split; [exact B|congruence].
+Qed.
+
+Theorem failed_flushes_then_recovery_over_any_buffer t n bk bv bh ops :
+  1 <= n -> pow2 n -> Forall (op_wf t) ops -> sized (Store.create t n) ops ->
+  exists s' m' (cf : fid -> list call),
+    store_run (Store.create t n) ops = Ok (s', snd (spec_run ∅ ops)) /\
+    render s' = Ok (Io.images m') /\
+    forall f c fuel lims,
+      backs c (get_file (empty_st bk bv bh) f) ->
+      (xrun_fuel (k_cs c) (flat_of (get_file (empty_st bk bv bh) f)) (map call_op (cf f)) <= fuel)%nat ->
+      exists c1 outs,
+        crun fuel c (map call_op (cf f)) = Ok (c1, outs) /\
+        (* any flush attempts under any limits: the view is intact ... *)
+        R (flush_attempts lims c1) (flat_of (get_file (m_st m') f)) /\
+        (* ... and the flush without limit makes the file durable *)
+        exists c3, flush_f None (flush_attempts lims c1) = FOk c3 /\ k_disk c3 = fb (get_file (m_st m') f).
+Proof.
+  intros Hn Hp Hops Hsz.
+  destruct (history_over_any_cache t n bk bv bh ops Hn Hp Hops Hsz) as (m0 & m' & s' & Hc & Hrun & Hio & Hr & cf & Hs).
+  exists s', m', cf. split; [exact Hrun|]. split; [exact Hr|].
+  intros f c fuel lims Hb Hfuel.
+  destruct (Hs f c fuel Hb Hfuel) as (c1 & Ec & (I1 & R1 & _) & _ & _).
+  eexists c1, _. split; [exact Ec|].
+  destruct (flush_attempts_keep lims c1 _ I1 R1) as (I2 & R2 & _).
+  split; [exact R2|].
+  destruct (flush_f_recovery _ _ I2 R2) as (c3 & E3 & Hd & _). exists c3. split; [exact E3|exact Hd].
+Qed.
+
+Print Assumptions failed_flushes_then_recovery_over_any_buffer.
